@@ -3,6 +3,7 @@ import Efp.Model.Graph
 import Efp.Proofs.Chain
 import Efp.Proofs.ChainTerm
 import Efp.Proofs.Links
+import Efp.Proofs.LinksUpdate
 /-!
 # C08 — the calculation graph is consistent and complete
 
@@ -23,7 +24,9 @@ raise, every attached value is listed by each of its recorded ancestors, every l
 attached and records the parent, and ids are unique (`links_mirrored_after_any_operations`).
 Swapping detach and attach in `replace…` (seed C08-a) breaks it (`attach_before_detach_breaks_links`).
 Values held in a dict: `replace_in_dict_keeps_links_mirrored` (unique ids), `no_relink_breaks_links`
-(seed C05-a), `shared_id_breaks_mirror` (the root of D2).
+(seed C05-a), `shared_id_breaks_mirror` (the root of D2).  A *whole* accepted update keeps the
+graph consistent with the reads, every recorded ancestor live: `accepted_update_keeps_graph_consistent`
+(`Proofs/LinksUpdate.lean`), `build_gives_consistent_graph`.
 *Complete* (every true read is a recorded ancestor) is a statement about the rules' bodies; it is
 tested by perturbation on the real code and is an assumption (H1) of C01's theorems.
 -/
@@ -145,6 +148,43 @@ theorem shared_id_breaks_mirror :
     (match Efp.Links.run [.mk [], .setAttr (0, 0) 0, .mk [0], .mk [0], .dictSet (0, 100) 0 1, .dictSet (0, 100) 1 2] with
      | .ok s => Efp.Links.mirrorOk s
      | .error _ => true) = false := by decide +kernel
+
+/-- **a complete accepted update keeps the graph consistent**: starting from a state in which every
+attribute's value records exactly the values currently held by what it reads, replacing the edited
+inputs and recomputing the attributes of a chain — in any order that has no repetition, is closed
+under "reads something refreshed" and refreshes nothing before what it reads (what `chainOk`
+establishes, and what the code's own chain satisfies: `C01.code_chain_total`) — gives a state with
+the same property: links mirrored, ids unique, **every recorded ancestor held by the model** -/
+theorem accepted_update_keeps_graph_consistent (reads : Efp.Links.Slot → List Efp.Links.Slot) (L : List Efp.Links.Slot)
+    (hreads : ∀ n, (reads n).Nodup) (hplain : ∀ n ∈ L, Efp.Links.isDictSlot n = false)
+    (hclosed : ∀ n, n ∉ L → ∀ m ∈ reads n, m ∉ L)
+    (hordered : ∀ l₁ n l₂, L = l₁ ++ n :: l₂ → ∀ m ∈ reads n, m ∉ l₂ ∧ m ≠ n)
+    (s s' : Efp.Links.LS) (hI : Efp.Links.Inv s) (hD : Efp.Links.NoDict s) (hC : Efp.Links.Consistent reads s)
+    (h : L.foldlM (Efp.Links.refresh reads) s = .ok s') :
+    Efp.Links.Consistent reads s' ∧ Efp.Links.Mirror s' ∧ Efp.Links.Uniq s' ∧ Efp.Links.Live s' := by
+  obtain ⟨c, i, l⟩ := Efp.Links.update_consistent reads L hreads hplain hclosed hordered s s' hI hD hC h
+  exact ⟨c, i.mirror, i.slot.uniq, l⟩
+
+/-- … in particular building a model from nothing, attribute after attribute in an order that respects
+the reads, gives a consistent graph (the empty state is consistent) -/
+theorem build_gives_consistent_graph (reads : Efp.Links.Slot → List Efp.Links.Slot) (L : List Efp.Links.Slot)
+    (hreads : ∀ n, (reads n).Nodup) (hplain : ∀ n ∈ L, Efp.Links.isDictSlot n = false)
+    (hclosed : ∀ n, n ∉ L → ∀ m ∈ reads n, m ∉ L)
+    (hordered : ∀ l₁ n l₂, L = l₁ ++ n :: l₂ → ∀ m ∈ reads n, m ∉ l₂ ∧ m ≠ n)
+    (s' : Efp.Links.LS) (h : L.foldlM (Efp.Links.refresh reads) {} = .ok s') :
+    Efp.Links.Consistent reads s' ∧ Efp.Links.Live s' := by
+  obtain ⟨c, _, l⟩ := Efp.Links.update_consistent reads L hreads hplain hclosed hordered {} s'
+    Efp.Links.init_inv (fun v sl hc => by cases hc) (fun sl v hv => by cases hv) h
+  exact ⟨c, l⟩
+
+/-! non-vacuity: input (0,0), (0,1) computed from it, (0,2) from both; built, then the input edited -/
+def demoReadsF : Efp.Links.Slot → List Efp.Links.Slot
+  | (0, 1) => [(0, 0)]
+  | (0, 2) => [(0, 1), (0, 0)]
+  | _ => []
+example : (match ([(0, 0), (0, 1), (0, 2)] ++ [(0, 0), (0, 1), (0, 2)]).foldlM (Efp.Links.refresh demoReadsF) {} with
+           | .ok s => (Efp.Links.mirrorOk s, Efp.Links.liveOk s, (s.get 5).anc, s.size)
+           | .error _ => (false, false, [], 0)) = (true, true, [4, 3], 6) := by decide +kernel
 
 /-- the state in which a calculated value 1 (slot (0,1)) depends on an input 0 (slot (0,0)) and a
 freshly computed replacement 2 with the same ancestor exists -/
